@@ -76,6 +76,17 @@ def call(
     if extra_args:
         raise TypeError(f"unexpected keyword argument '{extra_args[0]}'")
 
+    # The value is a float as soon as the coefficients or one numeric argument
+    # are inexact; integer arguments are then raised to their powers as floats.
+    inexact = poly.dtype.kind in "fc" or any(
+        isinstance(value, (float, complex))
+        or (
+            isinstance(value, (numpy.generic, numpy.ndarray))
+            and not isinstance(value, numpoly.ndpoly)
+            and value.dtype.kind in "fc"
+        )
+        for value in parameters.values()
+    )
     # Narrow integer types would wrap around when raised to a power:
     for name, value in parameters.items():
         if isinstance(value, (list, tuple)):
@@ -92,7 +103,7 @@ def call(
             parameters[name] = value = value.astype(int)
         # With inexact coefficients the value is a float: integer arguments are
         # raised to their powers as floats, which do not wrap around.
-        if poly.dtype.kind in "fc" and not isinstance(value, numpoly.ndpoly):
+        if inexact and not isinstance(value, numpoly.ndpoly):
             if isinstance(value, (bool, int)):
                 parameters[name] = float(value)
             elif (
